@@ -76,6 +76,7 @@ TraceSpec == TInit /\ [][TNext]_tvars
 
 PerWindow == P!PerWindow
 SizeBound == P!SizeBound
-HWM == Mark(l)
+\* record the high-water mark; once the whole trace has been explained (depth-first search) nothing more is explored
+HWM == Mark(l) /\ TLCGetOrDefault(1, 0) < TraceLen
 Post == Report
 ================================================================================
